@@ -196,3 +196,29 @@ theorem LkS.localFnToAssign {kind kind' : LocalKind} {name : String} {ty : Optio
       NoRefEs.cons.mpr ⟨NoRefE.fn.mpr hn'.2, fun _ _ => rfl⟩⟩
 
 end DarkluaModel.Sem.Heap
+
+namespace DarkluaModel.Sem.Heap
+variable {cx : Cx}
+
+/-- **Context step.** A watched global `name` whose value is known (`cx.G`) can be replaced by an
+expression `value` that always evaluates, purely, to that value: nothing declares or assigns `name`
+(that is what being watched means), so the variable reads the global. -/
+theorem SoundE.injectGlobal {Q : QRel} {D : List DName} {name : String} {value : Expr} (hW : name ∈ cx.W)
+    (hval : ∀ (N : NumOps) (call : CallFn N) (ρ : ExtOracle N) (k : Nat) (env : Env N) (σ : State N),
+      ∃ v, (name, v) ∈ cx.G N ∧ evalE call ρ k env value σ = .ok [v] σ) :
+    SoundE Q cx D (.var name) value := by
+  intro N call ρ k env env' σ σ' β hc hs he
+  obtain ⟨v, hv, hev⟩ := hval N call ρ k env' σ'
+  have hl : lookupVar env name σ = v := by
+    simp only [lookupVar, (he.loc.nb name (he.loc.dw name hW)).1]
+    exact hs.ginv _ hv
+  simp only [evalE, hl, hev]
+  exact RRel.okEq hs
+
+theorem LkE.injectGlobal {name : String} {value : Expr} (hW : name ∈ cx.W)
+    (hval : ∀ (N : NumOps) (call : CallFn N) (ρ : ExtOracle N) (k : Nat) (env : Env N) (σ : State N),
+      ∃ v, (name, v) ∈ cx.G N ∧ evalE call ρ k env value σ = .ok [v] σ)
+    (hnr : ∀ D, NoRefE D value) : (LkE cx) (.var name) value :=
+  fun D _ _ => ⟨.genE fun _ _ => SoundE.injectGlobal hW hval, hnr D⟩
+
+end DarkluaModel.Sem.Heap
